@@ -10,6 +10,14 @@
 #include "c13_kernel.hpp"
 #include "nmtools/array/eval/sycl.hpp"
 #include "nmtools/array/view/cumsum.hpp"
+#include "nmtools/array/view/activations/leaky_relu.hpp"
+#include "nmtools/array/view/activations/elu.hpp"
+#include "nmtools/array/view/activations/celu.hpp"
+#include "nmtools/array/view/activations/hardtanh.hpp"
+#include "nmtools/array/view/activations/softplus.hpp"
+#include "nmtools/array/view/activations/hardshrink.hpp"
+#include "nmtools/array/view/activations/softshrink.hpp"
+#include "nmtools/array/view/activations/prelu.hpp"
 using namespace c13;
 
 #ifndef C13_SYCL_GROUP
@@ -22,6 +30,10 @@ using namespace c13;
 #define DROP nm::None, nm::None, nm::False
 #define SUMALL(x) view::reduce_add(x, nm::None)
 #define MAXALL(x) view::reduce_maximum(x, nm::None)
+
+// run-time parameter i of a parametrised activation: request pq=<ints>, in quarter units (exact in binary32)
+#define PQ(i) (0.25f * (float)par_q(a, i))
+static int par_q(const Args& a, size_t i) { auto v = intsi(a, "pq"); if (i >= v.size()) throw bad_args("pq"); return v[i]; }
 
 template <typename view_t>
 static std::string run_sycl(const std::string& op, const view_t& v, const Args& a) {
@@ -43,9 +55,8 @@ static std::string run_sycl(const std::string& op, const view_t& v, const Args& 
     uvec dshape; std::vector<long long> ddata;
     if constexpr (meta::is_maybe_v<decltype(dev)>) { if (!nm::has_value(dev)) return "nothing-dev"; dump(nm::unwrap(dev), dshape, ddata); }
     else dump(dev, dshape, ddata);
-    std::vector<elem_t> out; for (auto x : ddata) out.push_back((elem_t)x);
-    if (dshape != hshape) return "ok shape=" + fmt(dshape) + " out=" + fmt(out) + " hosteq=0";
-    return answer(hshape, hdata, out);
+    if (dshape != hshape) return "ok shape=" + fmt(dshape) + " out=" + fmt(ddata) + " hosteq=0";
+    return answer_codes(hshape, hdata, ddata);
 }
 
 #if C13_SYCL_GROUP == 3
@@ -85,6 +96,14 @@ std::string handle(const std::string& op, const Args& a) {
     // a number literal operand: passed to the kernel by value (context_t::run, sycl/context.hpp:585)
     PROG1("add_x_lit",        view::add(x0, (int)integer(a,"lit")))
     PROG1("mul_lit_x",        view::multiply((int)integer(a,"lit"), x0))
+#elif C13_SYCL_GROUP == 5
+    // (float leaves) unary ufuncs whose op carries run-time parameters, alone and in chains
+    PROG1("act_leaky",      view::leaky_relu(x0, PQ(0)))
+    PROG1("act_hardtanh",   view::hardtanh(x0, PQ(0), PQ(1)))
+    PROG1("act_softplus",   view::softplus(x0, PQ(0), PQ(1)))
+    PROG2("leaky_add",      view::leaky_relu(view::add(x0, x1), PQ(0)))
+    PROG2("add_leaky_x",    view::add(view::leaky_relu(x0, PQ(0)), x1))
+    PROG2("hardtanh_mul_elu_x", view::hardtanh(view::multiply(view::elu(x0, PQ(0)), x1), PQ(1), PQ(2)))
 #elif C13_SYCL_GROUP == 3
     // column-major host arrays (known finding kernel.colmajor-operand)
     PROG1("transpose_col", view::transpose(x0, AXES))
